@@ -208,6 +208,20 @@ def long_run_cases():
             st = [("build", 0), ("connect", 0, True, 0, lvl), ("connack", 0, 0, False)]
             st += [("inpub", 0, k % 3) for k in range(90)] + [("inrel", 0, "known")] * 30
             yield C.SessionCase("long-run/inbound", cfg, steps=st)
+            # 24 complete cycles of everything (a leak of one entry or one count per cycle shows under a small window)
+            for win, clean in ((1, True), (2, False)):
+                st = [("build", 0), ("setwin", 0, win), ("connect", 0, clean, 0, lvl), ("connack", 0, 0, False)]
+                for k in range(24):
+                    st += [("pub", 0, 1), ("ack", 0, "PUBACK", "old"), ("pub", 0, 2), ("ack", 0, "PUBREC", "old"), ("ack", 0, "PUBCOMP", "old"),
+                           ("sub", 0, ("str", "tuple", "list")[k % 3], 2, k % 3), ("ack", 0, "SUBACK", "old"),
+                           ("unsub", 0, ("str", "list")[k % 2], 2), ("ack", 0, "UNSUBACK", "old"),
+                           ("inpub", 0, 2), ("inrel", 0, "known"), ("inpub", 0, 1), ("pub", 0, 0)]
+                    if k % 5 == 4:
+                        st += [("pub", 0, 1), ("sub", 0, "str", 1, 1), ("lose", 0, ("lost", "done")[k % 2]), ("build", 0), ("setwin", 0, win),
+                               ("connect", 0, clean, 0, lvl), ("connack", 0, 0, not clean), ("ack", 0, "PUBACK", "old")]
+                    if k % 7 == 6:
+                        st += [("sub", 0, "str", 1, 0)] * (win + 1) + [("ack", 0, "SUBACK", "old")] * (win + 1)     # one refused: window full
+                yield C.SessionCase("long-run/cycles", cfg, steps=st)
             # 60 keepalive periods, each PINGREQ answered half way, with traffic now and then
             st = [("build", 0), ("connect", 0, True, 2, lvl), ("connack", 0, 0, False)]
             for k in range(60):
